@@ -2,7 +2,7 @@
 import os
 
 from . import core
-from .rules import stdio, cert, mark, exact, optstore, inval, idx, atomic, own, tokens, idxclass, copy, pair, structfree, buf, div, counter, sentinel, appendinit, verdict, basismap, zerotol, escape, lenclass, djsym, ndet, useb4check, norms, opencheck, shell, esolver, errlost, rescan, certdep, neverset, fmt, defaults, scratch, fullscan, slotleak, floatidx, sensemap, trunc, vtypezero, allockind, intdiv, strscan, localfield, rawidx, argcap, staleptr, condalloc, lpstate, vstattype, alphabet, outleak, fieldleak, lenm1, basisdim, dupmark, rowcopy, normlen, logonly, decacc, nzcount, infmap, lognofail, outunset, dupentry, digitseen, signedidx, strcap, nulterm, finite, nullret, pcheck, probstat, dzfresh, kwtable, headguard, hitused, optptr, noindex, colen, pastcol, twopass, growguard, negidx
+from .rules import stdio, cert, mark, exact, optstore, inval, idx, atomic, own, tokens, idxclass, copy, pair, structfree, buf, div, counter, sentinel, appendinit, verdict, basismap, zerotol, escape, lenclass, djsym, ndet, useb4check, norms, opencheck, shell, esolver, errlost, rescan, certdep, neverset, fmt, defaults, scratch, fullscan, slotleak, floatidx, sensemap, trunc, vtypezero, allockind, intdiv, strscan, localfield, rawidx, argcap, staleptr, condalloc, lpstate, vstattype, alphabet, outleak, fieldleak, lenm1, basisdim, dupmark, rowcopy, normlen, logonly, decacc, nzcount, infmap, lognofail, outunset, dupentry, digitseen, signedidx, strcap, nulterm, finite, nullret, pcheck, probstat, dzfresh, kwtable, headguard, hitused, optptr, noindex, colen, pastcol, twopass, growguard, negidx, lpinit
 from .effects import Effects
 
 FIX = os.path.join(os.path.dirname(os.path.abspath(__file__)), "fixtures")
@@ -290,7 +290,7 @@ PROPS = {
     "C07": {
         "rules": [lambda prog, tier: idx.run(prog), lambda prog, tier: atomic.run(prog), lambda prog, tier: shell.run(prog, shared_eff(prog)),
                   lambda prog, tier: lpstate.run(prog),
-                  lambda prog, tier: alphabet.run(prog, shared_eff(prog)), lambda prog, tier: basisdim.run(prog), lambda prog, tier: dupmark.run(prog), lambda prog, tier: logonly.run(prog), lambda prog, tier: lognofail.run(prog), lambda prog, tier: outunset.run(prog), lambda prog, tier: alphabet.run_narrow(prog), lambda prog, tier: dupentry.run(prog), lambda prog, tier: own.run_loadkeep(prog), lambda prog, tier: own.run_basiscard(prog, shared_eff(prog)), lambda prog, tier: own.run_basissense(prog, shared_eff(prog)), lambda prog, tier: idx.run_pubstruct(prog), lambda prog, tier: noindex.run(prog), lambda prog, tier: pcheck.run(prog), lambda prog, tier: headguard.run(prog), lambda prog, tier: headguard.run_hashof(prog),
+                  lambda prog, tier: alphabet.run(prog, shared_eff(prog)), lambda prog, tier: basisdim.run(prog), lambda prog, tier: dupmark.run(prog), lambda prog, tier: logonly.run(prog), lambda prog, tier: lognofail.run(prog), lambda prog, tier: outunset.run(prog), lambda prog, tier: alphabet.run_narrow(prog), lambda prog, tier: dupentry.run(prog), lambda prog, tier: own.run_loadkeep(prog), lambda prog, tier: own.run_basiscard(prog, shared_eff(prog)), lambda prog, tier: own.run_basissense(prog, shared_eff(prog)), lambda prog, tier: idx.run_pubstruct(prog), lambda prog, tier: noindex.run(prog), lambda prog, tier: lpinit.run(prog), lambda prog, tier: pcheck.run(prog), lambda prog, tier: headguard.run(prog), lambda prog, tier: headguard.run_hashof(prog),
                   lambda prog, tier: errlost.run(prog, scope_funcs=set(prog.reachable(sorted(f.key for f, _ in inval.api_functions(prog)))), floor=150)],
         "technique": "interprocedural taint of API index/selector arguments + path-sensitive must-analysis of range-guard facts "
                      "(right dimension, right strictness) on clang::CFG with callee preconditions propagated to the API boundary and "
@@ -547,7 +547,7 @@ PROPS = {
     "C17": {
         "rules": [lambda prog, tier: buf.run(prog),
                   lambda prog, tier: idx.run(prog), lambda prog, tier: idx.run_pubstruct(prog), lambda prog, tier: optptr.run(prog),
-                  lambda prog, tier: colen.run(prog), lambda prog, tier: pastcol.run(prog), lambda prog, tier: twopass.run(prog), lambda prog, tier: growguard.run(prog), lambda prog, tier: growguard.run_capsync(prog), lambda prog, tier: negidx.run(prog),
+                  lambda prog, tier: colen.run(prog), lambda prog, tier: pastcol.run(prog), lambda prog, tier: twopass.run(prog), lambda prog, tier: growguard.run(prog), lambda prog, tier: growguard.run_capsync(prog), lambda prog, tier: negidx.run(prog), lambda prog, tier: lpinit.run(prog),
                   lambda prog, tier: idxclass.run(prog),
                   lambda prog, tier: lenclass.run(prog),
                   lambda prog, tier: lenclass.run_capacity(prog),
@@ -873,6 +873,12 @@ _ADD.setdefault("C09", {})
 _ADD["C09"]["explanation"] = _ADD["C09"].get("explanation", "") + (
     " (R-RANGEALLOC) the constant 'R' is stored into ILLlpdata::sense only over paths on which ILLlpdata::rangeval has been allocated or seen "
     "non-NULL: the writers emit the range of a ranged row only when the array exists.")
+for _pid in ("C07", "C17"):
+    _ADD.setdefault(_pid, {})
+    _ADD[_pid]["explanation"] = _ADD[_pid].get("explanation", "") + (
+        " (R-LPINIT) every scalar field of the simplex record (flags of the embedded status records included) that a function reachable from the "
+        "public interface reads outside the simplex machinery is written by the record's initialisation: a query on a problem that was never "
+        "solved does not branch on uninitialised memory.")
 _ADD.setdefault("C17", {})
 _ADD["C17"]["explanation"] = _ADD["C17"].get("explanation", "") + (
     " (R-CAPSYNC) a pointer field that is paired with a capacity field (some function allocates it with a computed length and stores that very "
